@@ -24,6 +24,8 @@
  *   c open <idlen>             connection whose output is a COBS stream on the socket, message ids of idlen bytes
  *   c req <hex> <acts>         as `s req`, through mpt_connection_dispatch; `defer` keeps the handle as h<k>
  *   c dreply <k> <hex|none>    deferred handle k ->reply(msg)
+ *   c await <tag> | c send <hex>   requester side: mpt_connection_await(handler <tag>) / mpt_connection_push(data)+push(0);
+ *                              a later `c req` whose id carries the reply mark is the peer's answer (logged hr<tag>(payload))
  *   c close                    mpt_connection_fini
  *
  * R = verdict (+ token / id), C = the transport calls made during this op, I = exact return code.
@@ -230,6 +232,21 @@ static void ccon_release(void)
 	for (int i = 0; i < cnh; i++) if (chnd[i]) { chnd[i]->_vptr->reply(chnd[i], 0); chnd[i] = 0; }
 	cnh = 0;
 }
+/* reply handler of a request sent by the connection: logged like a frame, `reply<tag>[payload]` */
+static char crep[4096]; static size_t creplen;
+static int creply_handler(void *arg, const MPT_STRUCT(message) *msg)
+{
+	creplen += snprintf(crep + creplen, sizeof(crep) - creplen, "%shr%ld(", creplen ? "," : "", (long) (intptr_t) arg);
+	if (!msg) creplen += snprintf(crep + creplen, sizeof(crep) - creplen, "none");
+	else {
+		MPT_STRUCT(message) tmp = *msg; uint8_t b[1024]; size_t n = mpt_message_read(&tmp, sizeof(b), b);
+		static const char d[] = "0123456789abcdef";
+		if (!n) crep[creplen++] = '-';
+		for (size_t i = 0; i < n && creplen + 3 < sizeof(crep); i++) { crep[creplen++] = d[b[i] >> 4]; crep[creplen++] = d[b[i] & 15]; }
+	}
+	crep[creplen++] = ')'; crep[creplen] = 0;
+	return 0;
+}
 static void con_op(void)
 {
 	const char *op = drv_w[1];
@@ -237,6 +254,7 @@ static void con_op(void)
 	if (!strcmp(op, "open") && drv_nw == 3) {
 		if (drv_parse_nat(drv_w[2], &a) || a > 255) { puts("bad-op"); return; }
 		sin_close(); ccon_release(); ccon_close(); sin_drop_peer();
+		creplen = 0;
 		int sv[2];
 		if (socketpair(AF_UNIX, SOCK_STREAM, 0, sv) < 0) { puts("R nosocket | C - | I ret=0"); return; }
 		MPT_STRUCT(socket) sock; sock._id = sv[0];
@@ -273,7 +291,8 @@ static void con_op(void)
 		sin_defer_keep = 0;
 		mpt_stream_flush(srm);
 		printf("R called=%d ctx=%d id=%llu acts=%s | C ", sin_called, sin_ctx, sin_id, sin_called ? sin_res : "-");
-		sin_frames();
+		if (creplen) { fputs(crep, stdout); creplen = 0; }
+		else sin_frames();
 		printf(" | I next=%d disp=%d\n", nx, dr);
 	}
 	else if (!strcmp(op, "dreply") && drv_nw == 4) {
@@ -287,11 +306,28 @@ static void con_op(void)
 		sin_frames();
 		if (r < 0) printf(" | I ret=%s\n", drv_errname(r)); else printf(" | I ret=%d\n", r);
 	}
+	else if (!strcmp(op, "await") && drv_nw == 3) {
+		if (!ccon_open || drv_parse_nat(drv_w[2], &a) || a > 1000000) { puts("bad-op"); return; }
+		int r = mpt_connection_await(&ccon, creply_handler, (void *) (intptr_t) a);
+		if (r < 0) printf("R refused | C - | I ret=%s\n", drv_errname(r));
+		else printf("R ok id=%u | C - | I ret=%d\n", (unsigned) ccon.cid, r);
+	}
+	else if (!strcmp(op, "send") && drv_nw == 3) {
+		uint8_t *dat = 0; size_t dlen = 0; int isnull = 0;
+		if (!ccon_open || drv_parse_data(drv_w[2], &dat, &dlen, &isnull) || isnull || dlen > 1000) { puts("bad-op"); free(dat); return; }
+		ssize_t r1 = dlen ? mpt_connection_push(&ccon, dlen, dat) : 0;
+		ssize_t r2 = r1 < 0 ? r1 : mpt_connection_push(&ccon, 0, 0);
+		free(dat);
+		printf("R %s | C ", (r1 < 0 || r2 < 0) ? "refused" : "ok");
+		sin_frames();
+		printf(" | I ret=%zd,%zd\n", r1, r2);
+	}
 	else if (!strcmp(op, "close") && drv_nw == 2) {
 		if (!ccon_open) { puts("bad-op"); return; }
 		ccon_close();
 		printf("R ok | C ");
-		sin_frames();
+		if (creplen) { fputs(crep, stdout); creplen = 0; }
+		else sin_frames();
 		printf(" | I ret=0\n");
 	}
 	else puts("bad-op");
@@ -304,6 +340,7 @@ static void sin_op(void)
 	if (!strcmp(op, "open") && drv_nw == 3) {
 		if (drv_parse_nat(drv_w[2], &a) || a > 1000) { puts("bad-op"); return; }
 		sin_close(); ccon_release(); ccon_close(); sin_drop_peer();
+		creplen = 0;
 		int sv[2];
 		if (socketpair(AF_UNIX, SOCK_STREAM, 0, sv) < 0) { puts("R nosocket | C - | I ret=0"); return; }
 		MPT_STRUCT(socket) sock; sock._id = sv[0];
